@@ -297,10 +297,12 @@ class Ownership(Machine):
             return ()
         if name in tgt.groups:
             ctx.probe("reset_existing_key")
-            # position may be kept or moved: follow the SUT, the other names keep their relative order
+            # "insertion order" as every Python mapping means it: giving an existing name a new value is not an insertion
             others = [n for n in tgt.groups if n != name]
             now = list(m.group_labels)
             ctx.require([n for n in now if n != name] == others and name in now, "manager", "order_of_other_groups_changed")
+            ctx.require(now == list(tgt.groups), "manager", "reset_of_an_existing_group_moved_it",
+                        lambda: "groups %r; after manager[%r] = <new value>: %r" % (list(tgt.groups), name, now))
             new = OrderedDict()
             for n in now:
                 new[n] = tgt.groups.get(n)
